@@ -5,7 +5,7 @@ from ..cfg import witness
 from ..core import AnalysisError, u, walk_local, enclosing_stmt
 from ..lib import (construct, std_facts, def_of, facts_imply, calls_of_node,
                    in_subtree, returns_of, facts_at, all_match_form)
-from .c02 import eos, consuming_methods, CP, alternatives, indirect_callees
+from .c02 import eos, consuming_methods, CP, alternatives, indirect_callees, is_decline
 from .common import instance_state
 
 KINDS = ['BindingStatement', 'BlockDeclaration', 'ImportStatement', 'IncludeStatement']
@@ -215,6 +215,10 @@ def run(ctx):
   okfirst = bool(qtest) and all(witness(g, g.entry.id, [cn.id], avoid=[qtest[0].id]) is None for cn in cnodes)
   fills = [cc for n in g.live_nodes() for cc in calls_of_node(n) if u(cc.func).startswith('self._statements_queue.')
            and cc.func.attr not in ('popleft',)]
+  if not fills:
+    # the block parser may queue its members itself (after the whole block was read)
+    fills = [cc for m_ in c.methods.values() for cc in walk_local(m_.node) if isinstance(cc, ast.Call) and u(cc.func).startswith('self._statements_queue.')
+             and cc.func.attr not in ('popleft',)]
   okf = bool(fills) and all(cc.func.attr == 'extend' for cc in fills)
   ctx.check(okq and okd and okf, 'C03.queue', construct(ps), 'block members are queued with extend and drained with popleft (FIFO: source order)',
             'the block queue is %s / drained by %s / filled by %s: block members would not be yielded in source order'
@@ -225,7 +229,7 @@ def run(ctx):
   apps = [cc for cc in walk_local(bb.node) if isinstance(cc, ast.Call) and isinstance(cc.func, ast.Attribute) and cc.func.attr in ('append', 'insert', 'appendleft')]
   ctx.check(bool(apps) and all(cc.func.attr == 'append' for cc in apps), 'C03.queue', construct(bb), 'members are collected in source order (append)',
             'block members are collected with %s' % [cc.func.attr for cc in apps], bb.loc(), instance='collect-order')
-  hdr = [n for n in walk_local(ps.node) if isinstance(n, ast.Assign) and isinstance(n.targets[0], ast.Tuple) and isinstance(n.value, ast.Call)
+  hdr = [n for n in walk_local(ps.node) if isinstance(n, ast.Assign) and isinstance(n.value, ast.Call)
          and prog.resolve_call(ps, n.value) == bb.qual]
   ctx.check(bool(hdr), 'C03.queue', construct(ps), 'the block header is returned as the statement, its members follow from the queue',
             'parse_statement no longer returns the block header first', ps.loc(), instance='header-first')
@@ -296,7 +300,7 @@ def normal_form(ctx):
     exits = [g.nodes[a] for a, _ in g.pred[g.exit.id]]
     for r in exits:
       v = r.ast.value if r.kind == 'return' else None
-      if isinstance(v, ast.Tuple) and v.elts and isinstance(v.elts[0], ast.Constant) and v.elts[0].value is False:
+      if is_decline(prog, v):
         continue   # a decline consumed nothing (C02.backtrack)
       if r.id in cids:
         out.append((r, [r]))
